@@ -1,14 +1,21 @@
 #!/bin/bash
-# usage: try_mutant.sh <patch> <property>...   applies the patch to /repo, runs the quick checks, reverts.
-patch=$1; shift
-cd /repo || exit 2
-if ! git apply --check "$patch" 2>/dev/null; then echo "PATCH DOES NOT APPLY: $patch"; exit 2; fi
-git apply "$patch"
+# usage: try_mutant.sh <seeded/NAME/patch.diff> <property>...
+# Runs the quick checks against a scratch worktree of /repo with the seeded change applied
+# (GOSMT_REPO): /repo itself and the evidence files are left alone. A change written against an
+# earlier state of /repo (meta.json "applies_to": later fix: commits touched the same lines) is
+# applied to that commit; checks run there may also report what those later commits repaired.
+patch=$(readlink -f "$1"); shift
+meta=$(dirname "$patch")/meta.json
+base=$(python3 -c "import json,sys; print(json.load(open(sys.argv[1])).get('applies_to') or 'HEAD')" "$meta" 2>/dev/null || echo HEAD)
+wt=$(mktemp -d /tmp/mutant.XXXXXX); rmdir "$wt"
+git -C /repo worktree add -q --detach "$wt" "$base" || exit 2
+cleanup() { git -C /repo worktree remove --force "$wt" 2>/dev/null; git -C /repo worktree prune; }
+trap cleanup EXIT
+if ! git -C "$wt" apply "$patch" 2>/dev/null; then echo "PATCH DOES NOT APPLY to $base: $patch"; exit 2; fi
+echo "change applied to $base in $wt"
 for p in "$@"; do
-  out=$(cd /verif && timeout 1500 ./bin/gosmt check "$p" 2>&1)
+  out=$(cd /verif && GOSMT_REPO=$wt timeout 1500 ./bin/gosmt check "$p" 2>&1)
   rc=$?
   echo "== $p exit=$rc"
   echo "$out" | grep "^VIOLATION\|^BROKEN\|^KNOWN\|UNCONFIRMED" | cut -c1-260
 done
-git -C /repo checkout -- .
-git -C /repo status --short | head -3
